@@ -40,6 +40,7 @@ const HANG_AFTER: Duration = Duration::from_secs(30);
 /// waits are cut short: the verdict is already a violation, only the cost of collecting it is bounded
 const HANG_AFTER_CONFIRMED: Duration = Duration::from_secs(3);
 static HANG_CONFIRMED: std::sync::atomic::AtomicBool = std::sync::atomic::AtomicBool::new(false);
+static HANG_MS: std::sync::atomic::AtomicU64 = std::sync::atomic::AtomicU64::new(0);
 
 // ------------------------------------------------------------------------------------ digests
 const FNV0: u64 = 0xcbf29ce484222325;
@@ -686,7 +687,10 @@ async fn run_case(line: String) -> String {
     let nwaves = specs.iter().map(|s| s.wave).max().unwrap_or(0) + 1;
     let mut hang_seen = HANG_CONFIRMED.load(Ordering::SeqCst);
     for w in 0..nwaves {
-        let limit = if hang_seen { HANG_AFTER_CONFIRMED } else { HANG_AFTER };
+        let limit = match HANG_MS.load(Ordering::SeqCst) {
+            0 => if hang_seen { HANG_AFTER_CONFIRMED } else { HANG_AFTER },
+            ms => Duration::from_millis(ms),
+        };
         let mut hs = Vec::new();
         for s in specs.iter().filter(|s| s.wave == w) {
             let payload = gen_body(s.id, s.blen, s.bseed);
@@ -763,11 +767,19 @@ fn run_once(line: &str) -> String {
 
 fn main() {
     std::panic::set_hook(Box::new(|_| {}));
+    // `--hang-ms <n>`: used by the driver only while SHRINKING a case whose failure was already established with the
+    // generous limit
+    let args: Vec<String> = std::env::args().collect();
+    if let Some(i) = args.iter().position(|a| a == "--hang-ms") {
+        if let Some(ms) = args.get(i + 1).and_then(|v| v.parse::<u64>().ok()) {
+            HANG_MS.store(ms, Ordering::SeqCst);
+        }
+    }
     let mut w = out();
     for line in read_cases() {
         let mut s = run_once(&line);
         // a hang is only believed when it shows up twice
-        if s.contains("|HANG|") {
+        if s.contains("|HANG|") && HANG_MS.load(Ordering::SeqCst) == 0 {
             s = run_once(&line);
             if s.contains("|HANG|") {
                 HANG_CONFIRMED.store(true, Ordering::SeqCst);
